@@ -91,6 +91,7 @@ type world struct {
 	tsets    chan map[string][]*targetgroup.Group
 	runDone  chan struct{}
 	runGID   int64
+	drainers map[int64]bool // goroutines in which the harness ran ApplyConfig / target updates
 	stopTick chan struct{}
 	stopCh   chan struct{} // closed by the harness right before it calls Manager.Stop
 	timedOut bool
@@ -117,7 +118,8 @@ func newWorld(c *core.Case, capacity, maxBatch int, drain bool) *world {
 	w := &world{
 		c: c, ams: map[string]*amRec{},
 		sendStart: map[int]int64{}, sendEnd: map[int]int64{},
-		idle: map[int64]int64{}, parkNext: map[int64]bool{}, parked: map[int64]chan struct{}{},
+		drainers: map[int64]bool{},
+		idle:     map[int64]int64{}, parkNext: map[int64]bool{}, parked: map[int64]chan struct{}{},
 		tsets:   make(chan map[string][]*targetgroup.Group),
 		runDone: make(chan struct{}), stopTick: make(chan struct{}), stopCh: make(chan struct{}),
 	}
@@ -261,7 +263,7 @@ func (w *world) do(ctx context.Context, _ *http.Client, req *http.Request) (*htt
 		if a.latency > 0 && g != w.runGID {
 			// logical latency: the response comes after `latency` further Send calls have begun
 			until := w.sendsBegun + int64(a.latency)
-			for w.sendsBegun < until && !w.noLatency && !w.timedOut {
+			for w.sendsBegun < until && !w.noLatency && !w.timedOut && a.latency > 0 {
 				w.cond.Wait()
 			}
 		}
